@@ -262,12 +262,33 @@ def run_harness(config, cases, workdir, poison=0xA5, tag=""):
         of = os.path.join(workdir, "impl.%s%s.%d.out" % (config, tag, part))
         with open(cf, "w") as f:
             f.write("\n".join(cases[start:]) + "\n")
+        timed_out = False
         with open(cf) as fi, open(of, "w") as fo:
-            r = subprocess.run([binp, "run"], stdin=fi, stdout=fo, stderr=subprocess.DEVNULL,
-                               env=dict(ENV, VERIF_POISON=str(poison)))
+            # WATCHDOG ("always terminates"): the harness flushes one line per case; when the output has not grown for
+            # VERIF_STALL_S seconds the case being processed is recorded as `crash:timeout` and the run resumes behind it
+            stall = float(os.environ.get("VERIF_STALL_S", "60"))
+            pr = subprocess.Popen([binp, "run"], stdin=fi, stdout=fo, stderr=subprocess.DEVNULL,
+                                  env=dict(ENV, VERIF_POISON=str(poison)))
+            last_size, last_t = -1, time.time()
+            while True:
+                try:
+                    pr.wait(timeout=1.0)
+                    break
+                except subprocess.TimeoutExpired:
+                    sz = os.path.getsize(of)
+                    if sz != last_size:
+                        last_size, last_t = sz, time.time()
+                    elif time.time() - last_t > stall:
+                        pr.kill()
+                        pr.wait()
+                        timed_out = True
+                        break
+            r = pr
         got = open(of).read().split("\n")
         if got and got[-1] == "":
             got.pop()
+        if timed_out and got and len(got) < n - start and not open(of).read().endswith("\n"):
+            got.pop()                      # a partially written line of the case that hung
         if r.returncode == 0 and len(got) == n - start:
             outs.extend(got)
             break
@@ -275,8 +296,8 @@ def run_harness(config, cases, workdir, poison=0xA5, tag=""):
         # a partially written last line cannot occur: lines are written with one write + flush
         outs.extend(got)
         sig = -r.returncode if r.returncode < 0 else r.returncode
-        outs.append("crash:%d" % sig)
-        crashes += 1
+        outs.append("crash:timeout" if timed_out else "crash:%d" % sig)
+        crashes += 50 if timed_out else 1       # at most four stalls per run
         start = len(outs)
         part += 1
         if crashes > 200:
